@@ -22,6 +22,12 @@ def _forwarding(check, prop: str, mod):
              'forwarded with ** are not filtered on the way')
   funcs = forward.scoped_functions(repo, prop)
   forward.check_forwarding(check, funcs)
+  from fjsa.rules import lints
+  check.rule('R-DISCARD', 'in the same functions: no bare expression statement calls a value-returning repository function or .replace(); '
+             'overriding methods keep the positional parameters and defaults of the method they override (R-OVERRIDE); Iterable[...] parameters '
+             'are consumed at most once per path and never inside a loop unless materialised first (R-ONEPASS); tree_map copies use a copying '
+             'function, not an arithmetic identity (R-COPY)')
+  lints.check_lints(check, funcs)
 
 
 def run_property(prop: str, tier: str, repo_root: str, seed: int = 0):
